@@ -10,16 +10,28 @@ from .symexec import OutOfSubset, fresh
 
 
 class CEval(object):
-    def __init__(self, ex, st, entry, result, loop_entry=None, locals_=None):
+    def __init__(self, ex, st, entry, result, loop_entry=None, locals_=None, sink=None):
         self.ex = ex
         self.st = st
         self.entry = entry
         self.result = result
         self.loop_entry = loop_entry
         self.locals = locals_ if locals_ is not None else st.locals
+        self.sink = sink        # path condition that receives well-formedness facts of references read from the heap
+        self.owner = None       # the contract whose clause is being evaluated
 
     def sub(self, st, locals_=None):
-        return CEval(self.ex, st, self.entry, self.result, self.loop_entry, locals_ if locals_ is not None else self.locals)
+        ce = CEval(self.ex, st, self.entry, self.result, self.loop_entry, locals_ if locals_ is not None else self.locals, self.sink)
+        ce.owner = self.owner
+        return ce
+
+    def note_wf(self, v):
+        if self.sink is None:
+            return
+        tmp = State0()
+        tmp.heap = self.st.heap
+        self.ex.assume_wf(tmp, v)
+        self.sink.extend(tmp.pc)
 
     def ev(self, n):
         m = getattr(self, 'c_' + type(n).__name__, None)
@@ -39,8 +51,10 @@ class CEval(object):
 
     def c_Name(self, n):
         if n.id == 'result':
-            if self.result is not None and 'result' not in self.locals:
-                return self.result
+            c = self.owner if self.owner is not None else self.ex.contract
+            is_param = ('result' in self.locals and c is not None and any(pn == 'result' for pn, _ in list(c.params) + list(c.free)))
+            if self.result is not None and not is_param:
+                return self.result       # the returned value (a *parameter* called result keeps its name; use result_value())
             if 'result' not in self.locals:
                 raise OutOfSubset('`result` used where no result exists (line %d)' % n.lineno)
         v = self.locals.get(n.id)
@@ -80,7 +94,10 @@ class CEval(object):
             base = SV(base.pt.args[0], base.t)
         if base.pt.kind == 'obj':
             name, pt, arr = self.ex.field_arr(self.st, base.pt.args[0], n.attr)
-            return SV(pt, Select(arr, base.t))
+            v = SV(pt, Select(arr, base.t))
+            if pt.is_ref() or (pt.kind == 'opt' and pt.args[0].is_ref()):
+                self.note_wf(v)
+            return v
         if base.pt.kind == 'tuple' and base.pt in NAMED_TUPLES:
             names = NAMED_TUPLES[base.pt]
             i = names.index(n.attr)
@@ -278,7 +295,7 @@ class CEval(object):
         if len(args) != len(p.params):
             raise OutOfSubset('predicate %s arity' % p.name)
         loc = dict(zip(p.params, args))
-        sub = CEval(self.ex, self.st, self.entry, self.result, self.loop_entry, loc)
+        sub = CEval(self.ex, self.st, self.entry, self.result, self.loop_entry, loc, self.sink)
         body = [s for s in p.node.body if not (isinstance(s, ast.Expr) and isinstance(s.value, ast.Constant))]
         return sub.eval_body(body)
 
@@ -308,20 +325,21 @@ class CEval(object):
     def i_old(self, n):
         if self.entry is None:
             raise OutOfSubset('old() without entry state')
-        sub = CEval(self.ex, self.entry, self.entry, self.result, self.loop_entry, self.entry.locals if self.locals is self.st.locals else self.locals)
+        sub = CEval(self.ex, self.entry, self.entry, self.result, self.loop_entry, self.entry.locals if self.locals is self.st.locals else self.locals, self.sink)
+        sub.owner = self.owner
         return sub.ev(n.args[0])
 
     def i_at_loop_entry(self, n):
         le = self.loop_entry
         if le is None:
             raise OutOfSubset('at_loop_entry() outside loop invariant')
-        return CEval(self.ex, le, self.entry, self.result, le, le.locals).ev(n.args[0])
+        return CEval(self.ex, le, self.entry, self.result, le, le.locals, self.sink).ev(n.args[0])
 
     def i_at_iter_start(self, n):
         it = getattr(self.ex, 'iter_start', None)
         if it is None:
             raise OutOfSubset('at_iter_start() outside a loop body')
-        return CEval(self.ex, it, self.entry, self.result, self.loop_entry, it.locals).ev(n.args[0])
+        return CEval(self.ex, it, self.entry, self.result, self.loop_entry, it.locals, self.sink).ev(n.args[0])
 
     def i_len(self, n):
         v = self.ev(n.args[0])
@@ -466,6 +484,11 @@ class CEval(object):
         s, x = self.ev(n.args[0]), self.ev(n.args[1])
         return SV(TBool, self.ex.set_has(self.st, s, x))
 
+    def i_set_map(self, n):
+        s = self.ev(n.args[0])
+        mname, nname, m, nn = self.ex._set_arrs(self.st, s)
+        return SV(PT('map', s.pt.args[0], TBool), Select(m, s.t))
+
     def i_set_size(self, n):
         s = self.ev(n.args[0])
         mname, nname, m, nn = self.ex._set_arrs(self.st, s)
@@ -578,3 +601,9 @@ class CEval(object):
 
 
 NAMED_TUPLES = {}
+
+
+class State0(object):
+    def __init__(self):
+        self.pc = []
+        self.heap = {}
